@@ -24,7 +24,9 @@ use crate::{
 };
 
 use super::super::{
-    machine::{BmpState, BmpStateDetails, Initiable, PeerAware},
+    machine::{
+        end_of_rib, BmpState, BmpStateDetails, Initiable, PeerAware,
+    },
     processing::ProcessingResult,
 };
 
@@ -105,7 +107,7 @@ impl BmpStateDetails<Updating> {
         pph: &PerPeerHeader<Bytes>,
         update: &UpdateMessage<Bytes>,
     ) -> ControlFlow<ProcessingResult, Self> {
-        if let Ok(Some(afi_safi)) = update.is_eor() {
+        if let Some(afi_safi) = end_of_rib(update) {
             if self.details.remove_pending_eor(pph, afi_safi) {
                 let num_pending_eors = self.details.num_pending_eors();
                 self.status_reporter.pending_eors_update(
